@@ -13,6 +13,7 @@
 package verifrt
 
 import (
+	"context"
 	"fmt"
 	"hash/fnv"
 	"runtime/debug"
@@ -132,6 +133,7 @@ type Sim struct {
 	SimTime     time.Duration
 	nroot       int
 	nativeAny   bool
+	timers      []time.Time // deadlines of timers created by instrumented library code
 }
 
 var cur atomic.Pointer[Sim]
@@ -282,6 +284,44 @@ func Block(site string, pred func() bool) {
 	BeforeLock(site, pred)
 }
 
+// Sleep replaces time.Sleep in instrumented code: the deadline is registered so
+// that the scheduler advances the fake clock to it when nothing else can run.
+func Sleep(d time.Duration) {
+	register(d)
+	time.Sleep(d)
+}
+
+// After replaces time.After in instrumented code.
+func After(d time.Duration) <-chan time.Time {
+	register(d)
+	return time.After(d)
+}
+
+// ContextWithTimeout replaces context.WithTimeout in instrumented code.
+func ContextWithTimeout(ctx context.Context, d time.Duration) (context.Context, context.CancelFunc) {
+	register(d)
+	return context.WithTimeout(ctx, d)
+}
+
+// ContextWithDeadline replaces context.WithDeadline in instrumented code.
+func ContextWithDeadline(ctx context.Context, t time.Time) (context.Context, context.CancelFunc) {
+	register(time.Until(t))
+	return context.WithDeadline(ctx, t)
+}
+
+func register(d time.Duration) {
+	s := cur.Load()
+	if s == nil || s.dead.Load() {
+		return
+	}
+	if d < 0 {
+		d = 0
+	}
+	s.mu.Lock()
+	s.timers = append(s.timers, time.Now().Add(d))
+	s.mu.Unlock()
+}
+
 // SelectOrder draws the order in which the cases of a select are tried.
 func SelectOrder(site string, n int) []int {
 	s := cur.Load()
@@ -341,6 +381,13 @@ func (s *Sim) Run() Outcome {
 		}
 		en := s.enabled()
 		if len(en) == 0 {
+			// nothing can run: if the library itself is waiting on a timer, move
+			// the fake clock to the earliest one and look again
+			if d, ok := s.nextTimer(); ok {
+				time.Sleep(d)
+				s.SimTime += d
+				continue
+			}
 			return Quiescent
 		}
 		if s.Step >= s.MaxStep {
@@ -430,6 +477,26 @@ func (s *Sim) choose(en []*G) int {
 	}
 	src.record("s", n, pick)
 	return pick
+}
+
+// nextTimer pops expired registrations and returns the time to the earliest
+// pending library timer.
+func (s *Sim) nextTimer() (time.Duration, bool) {
+	now := time.Now()
+	var keep []time.Time
+	var best time.Duration
+	found := false
+	for _, t := range s.timers {
+		if !t.After(now) {
+			continue
+		}
+		keep = append(keep, t)
+		if d := t.Sub(now); !found || d < best {
+			best, found = d, true
+		}
+	}
+	s.timers = keep
+	return best, found
 }
 
 // Advance moves the fake clock forward by d and lets timers fire.
